@@ -244,6 +244,17 @@ def forms(M):
     return out
 
 
+def fingerprint(m):
+    """What a caller can see of its own molecule object."""
+    from rdkit import Chem
+    return (Chem.MolToSmiles(m), m.GetNumAtoms(),
+            tuple(str(b.GetBondType()) for b in m.GetBonds()),
+            tuple(a.GetIsAromatic() for a in m.GetAtoms()),
+            tuple(tuple(sorted(a.GetPropsAsDict(includePrivate=False,
+                                                 includeComputed=False)))
+                  for a in m.GetAtoms()))
+
+
 def run_forms(R, name, smis, only=None):
     S = scheme(name)
     for smi in smis:
@@ -252,7 +263,28 @@ def run_forms(R, name, smis, only=None):
         for label, x in forms(M):
             if only is not None and label != only:
                 continue
+            fp = None if isinstance(x, str) else fingerprint(x)
             check_variant(R, name, S, M, base, 'form', x, label)
+            if fp is not None:
+                # a caller-owned object: untouched by the call, and usable again
+                R.evals += 1
+                R.nontrivial += 1
+                wit = dict(kind='variant', scheme=name, smiles=M.smi, how='form',
+                           label=label, text=None)
+                if fingerprint(x) != fp:
+                    R.outcomes['object:modified'] += 1
+                    R.violation('form:callers-object-modified',
+                                '[%s] GetDescriptors modified the molecule object it was '
+                                'given (%s, %s)' % (name, M.canon, label), wit)
+                elif desc(S, x) != base:
+                    R.outcomes['object:second-call-differs'] += 1
+                    R.violation(('order-dependent:fused-benzenoid:%s' % M.canon) if M.fused
+                                else 'form:second-call-on-same-object-differs',
+                                '[%s] decomposing the same molecule object (%s, %s) a '
+                                'second time gives %r, first time / SMILES %r' % (
+                                    name, M.canon, label, desc(S, x), base), wit)
+                else:
+                    R.outcomes['object:reusable'] += 1
         R.sample(dict(scheme=name, molecule=M.canon,
                       forms=[l for l, _ in forms(M)][:8]), limit=1)
 
